@@ -3800,7 +3800,32 @@ def _class_unstable(tree, fn):
     return out
 
 
-def _stable_chain(e, unstable, fn=None, tree=None):
+def _settled_before(tree, fn, stmt, attr):
+    """every store of self.<attr> outside __init__ is in ``fn`` itself, in a top-level statement of fn that comes before the top-level
+    statement ``stmt``: from there on the attribute keeps its value"""
+    if stmt not in fn.body:
+        return False
+    at = fn.body.index(stmt)
+    owner = None
+    for c in ast.walk(tree):
+        if isinstance(c, ast.ClassDef) and any(x is fn for x in ast.walk(c)):
+            owner = c
+    if owner is None:
+        return False
+    for q, f2 in functions(tree):
+        for n in _own_walk(f2):
+            if isinstance(n, ast.Attribute) and isinstance(n.ctx, (ast.Store, ast.Del)) and n.attr == attr:
+                if f2.name == '__init__' and any(x is f2 for x in ast.walk(owner)) and isinstance(n.value, ast.Name) and n.value.id == 'self':
+                    continue
+                if f2 is not fn:
+                    return False
+                idx = [k for k, s_ in enumerate(fn.body) if any(x is n for x in ast.walk(s_))]
+                if not idx or idx[0] >= at:
+                    return False
+    return True
+
+
+def _stable_chain(e, unstable, fn=None, tree=None, stmt=None):
     """`self.a.b` / `Class.CONST` / `self.q.get`: a chain of attribute reads from a plain name in which no attribute is ever re-bound
     after construction - reading it again later gives the same object"""
     if unstable is None or not isinstance(e, ast.Attribute):
@@ -3816,7 +3841,7 @@ def _stable_chain(e, unstable, fn=None, tree=None):
     for k, a in enumerate(chain):
         if k == 0 and cur.id in ('self', 'cls') and fn is not None and tree is not None:
             # the object's own attribute: what its class (and anything in this module that may hold such an object) re-binds
-            if a.attr in _class_unstable(tree, fn):
+            if a.attr in _class_unstable(tree, fn) and not (stmt is not None and _settled_before(tree, fn, stmt, a.attr)):
                 return False
         elif a.attr in unstable:
             return False
@@ -3859,7 +3884,7 @@ def inline_temps(tree, path, ref_locals):
                 uses = [n for n in ast.walk(fn) if isinstance(n, ast.Name) and n.id == name and isinstance(n.ctx, ast.Load)]
                 if not uses:
                     continue
-                alias = _stable_chain(st.value, unstable, fn, tree) and not any(isinstance(n, ast.Name) and n.id in _stores(fn) for n in ast.walk(st.value))
+                alias = _stable_chain(st.value, unstable, fn, tree, st) and not any(isinstance(n, ast.Name) and n.id in _stores(fn) for n in ast.walk(st.value))
                 reads_self = not alias and any(isinstance(n, ast.Attribute) and isinstance(n.value, ast.Name) and n.value.id == 'self' for n in ast.walk(st.value))
                 if len(uses) > 1 and _creates_object(st.value):
                     continue            # two uses of one list / iterator / array are two views of ONE object: writing the expression twice makes two
